@@ -21,7 +21,7 @@ POOL_CASE = ['*', 'a', 'A', '[aA]', 'a*', 'A*', '*/', '**', 'b']
 EXCL = ['a', '*/', '**/a', '.h', 'b*', 'a']
 EXCL_CASE = ['a', 'A*', '*/']
 BASES = ['GE', 'GEQ', 'GEO', 'GEY', 'GDE', 'GEYQ']
-BASES_CASE = ['GEI', 'GEIQ', 'GEC', 'GEIY']
+BASES_CASE = ['GEI', 'GEIQ', 'GEC', 'GEIY', 'GEW', 'GEWC']
 
 
 ODD_STATE = ['a', 'a\n', 'b\n', '.h\n', 'd/', 'd/a', 'd/a\n', 'a\\']
@@ -120,13 +120,20 @@ def check_state(desc, sc, pool, excl, bases, res, maxn, sh=0, ns=1):
                     if len(inc) > 1 and not exs and not any(set(p) & set('{},') for p in inc):
                         compare(res, dict(inp0, how='brace'), gl('{' + ','.join(inc) + '}', fs + 'B', root), want, fs)
                     # pathlib: same set, joined on the root, no duplicates
-                    if k % 3 == 0:
+                    if k % 5 == 0 or k % 7 == 0:
                         pf = fscommon.gflags(''.join(c for c in fs if c in 'GEDIQCOY'))
                         try:
                             pg = [str(x) for x in WP.Path(root).glob(inc, flags=pf, exclude=exs or None)]
                         except Exception as e:  # noqa: BLE001
                             res.add_violation(ID, run.viol('pathlib-raises', dict(inp0, how='pathlib'), 'a list', type(e).__name__))
                             continue
+                        if 'Q' in fs:
+                            # NOUNIQUE: the concatenation, every occurrence kept
+                            wantq = sorted(str(WP.Path(root, x)) for x in want)
+                            if sorted(pg) != wantq and ('I' not in fs or 'C' in fs):
+                                res.add_violation(ID, run.viol('pathlib-nounique', dict(inp0, how='pathlib'),
+                                                               [os.path.relpath(x, root) for x in wantq][:40],
+                                                               sorted(os.path.relpath(x, root) for x in pg)[:40]))
                         if 'Q' not in fs and len(pg) != len(set(pg)):
                             res.add_violation(ID, run.viol('duplicate-result', dict(inp0, how='pathlib'), 'no path twice', [os.path.relpath(x, root) for x in pg][:40]))
                         elif 'I' not in fs or 'C' in fs:
@@ -233,6 +240,9 @@ def replay(v):
         elif how == 'pathlib':
             pf = fscommon.gflags(''.join(c for c in fs if c in 'GEDIQCOY'))
             pg = [str(x) for x in WP.Path(root).glob(inc, flags=pf, exclude=exs or None)]
+            if v['kind'] == 'pathlib-nounique':
+                wantq = sorted(str(WP.Path(root, x)) for x in expected(model, root, inc, exs, fs))
+                return {'violates': sorted(pg) != wantq, 'observed': sorted(os.path.relpath(x, root) for x in pg)[:40]}
             if v['kind'] == 'pathlib-set-differs':
                 wantp = set(str(WP.Path(root, x)) for x in expected(model, root, inc, exs, fs))
                 return {'violates': set(pg) != wantp, 'observed': sorted(os.path.relpath(x, root) for x in set(pg))[:40]}
